@@ -1,5 +1,5 @@
 """Property id -> rules, and the texts that go to MANIFEST / evidence."""
-from .rules import optab, sign, role, memo, state
+from .rules import optab, sign, role, memo, state, reord
 
 PROPS = dict()
 NOT_BUILT = dict()
@@ -136,6 +136,21 @@ prop('C07', [
     'the case analysis of swap (which grandchildren go where), monotone '
     'size under sifting, that _sort_to_order reaches the target.',
     'typestate / pairing analysis on the swap loops')
+prop('C09', [
+    reord.r_reord,
+],
+    'the retry protocol of _try_to_reorder as a typestate (attempt in '
+    'context, requests disabled before reorder(), retry in context, '
+    're-armed before returning); _ReorderingContext saves the nesting '
+    'flag, restores it first thing on every exit and suppresses only '
+    '_NeedsReordering at the outermost level; the request is raised '
+    'before find_or_add writes anything and never while disabled; the '
+    'nine anchored methods are decorated; from every public name of '
+    'dd.bdd, dd.autoref and dd._copy the resolved call graph is searched '
+    'for a route to find_or_add that passes no decorated frame.',
+    'equality of results with reordering on and off (behavioural).',
+    'typestate on the decorator; call-graph reachability over resolved '
+    'callees (must-pass-through a decorated frame)')
 prop('C10', [
     sign.r_sign,
     role.r_role,
